@@ -34,6 +34,13 @@ def _linalg_args(lem, rng):
         return {'u': u, 'off': off, 'M': M, 'm': m, 'c': c, 'row': row}
     if name == 'ordg_is_dot':
         return {'crow': gens.bits(rng, m + 1), 'gs': gens.bits(rng, m + 1, cols), 'n': m, 'c': c}
+    if name == 'acq_unit':
+        n = int(rng.integers(0, 4)); mm = 2 * n + int(rng.integers(0, 3))
+        return {'g': rng.integers(-1, 3, size=2 * n + 3), 'i': int(rng.integers(0, 2 * n + 2)), 'm': mm, 'n': n}
+    if name in ('inq_exists', 'inq_member'):
+        n = int(rng.integers(0, 5))
+        qq = rng.integers(0, 5, size=n + 1)
+        return {'q': qq, 'n': n, 'c': int(rng.integers(0, 6)), 'k': int(rng.integers(0, max(n, 1)))}
     if name == 'mask_index':
         n = int(rng.integers(0, 7))
         mk = gens.bits(rng, n + 2)
